@@ -321,6 +321,28 @@ func ruleP14Model(p *Prog, r *Report) {
 			}
 		}
 		r.check(ok, "P14-merge", "isSubsetOf", p.pos(sub.Pos()), "a record/entry matches only if it contains every queried tag", "isSubsetOf does not fail as soon as one queried tag is missing")
+		// … and for no other reason: every way of answering "no" rests on a queried tag that the
+		// set does not contain (a shortcut by counting, say, rejects `--tag a --tag A`)
+		for i, ret := range returnsOf(sub) {
+			alts, okA := falseAlts(retResult(ret, 0), 0)
+			if !okA {
+				r.undecided("P14-merge", fmt.Sprintf("isSubsetOf:no#%d", i), p.instrPos(ret), "cannot tell when this return answers false")
+				continue
+			}
+			for _, alt := range alts {
+				missing := false
+				for _, g := range append(append([]Guard{}, guardsOf(ret.Block())...), alt...) {
+					c, isC := g.Cond.(*ssa.Call)
+					if !isC || g.Pol || !sameFn(staticCallee(c), cont) {
+						continue
+					}
+					if coll := rangeElemOf(c.Call.Args[1]); coll != nil && strip(coll) == ssa.Value(sub.Params[0]) && strip(c.Call.Args[0]) == ssa.Value(sub.Params[1]) {
+						missing = true
+					}
+				}
+				r.check(missing, "P14-merge", fmt.Sprintf("isSubsetOf:no#%d", i), p.instrPos(ret), "answers no because a queried tag is missing", "isSubsetOf can answer no although no queried tag was found missing: records and entries that carry every queried tag are filtered out")
+			}
+		}
 	}
 	_ = nLit
 }
@@ -610,8 +632,8 @@ func ruleP20Fields(p *Prog, r *Report) {
 	}
 	fieldsOf := func(f *ssa.Function, typ string) map[string]string {
 		out := map[string]string{}
-		for _, g := range withAnons(f) {
-			eachInstr(g, func(in ssa.Instruction) {
+		for _, g := range plainWithAnons(f) {
+			eachVInstr(g, func(in ssa.Instruction) {
 				st, ok := in.(*ssa.Store)
 				if !ok {
 					return
@@ -631,7 +653,13 @@ func ruleP20Fields(p *Prog, r *Report) {
 	}
 	check := func(typ string, got map[string]string, want map[string]string, pos string) {
 		for _, k := range sortedKeys(want) {
-			r.check(got[k] == want[k], rule, typ+"."+k, pos, k+" <- "+want[k], fmt.Sprintf("%s.%s is computed as %s, expected %s", typ, k, got[k], want[k]))
+			okAlt := false
+			for _, alt := range strings.Split(want[k], " || ") {
+				if got[k] == alt {
+					okAlt = true
+				}
+			}
+			r.check(okAlt, rule, typ+"."+k, pos, k+" <- "+want[k], fmt.Sprintf("%s.%s is computed as %s, expected %s", typ, k, got[k], want[k]))
 		}
 	}
 	check("RecordView", fieldsOf(rv, "RecordView"), map[string]string{
@@ -643,12 +671,12 @@ func ruleP20Fields(p *Prog, r *Report) {
 		"ShouldTotalMins": "elem.ShouldTotal.InMinutes",
 		"Diff":            "Total(elem).Minus(elem.ShouldTotal).ToStringWithSign",
 		"DiffMins":        "Total(elem).Minus(elem.ShouldTotal).InMinutes",
-		"Tags":            "toTagViews(elem.Summary.Tags)",
+		"Tags":            "toTagViews(elem.Summary.Tags) || toTagViews(elem.Summary.Tags.ToStrings)",
 		"Entries":         "toEntryViews(elem.Entries)",
 	}, p.pos(rv.Pos()))
 	check("EntryView", fieldsOf(ev, "EntryView"), map[string]string{
 		"Summary":   "elem.Summary.ToString",
-		"Tags":      "toTagViews(elem.Summary.Tags)",
+		"Tags":      "toTagViews(elem.Summary.Tags) || toTagViews(elem.Summary.Tags.ToStrings)",
 		"Total":     "elem.Duration.ToString",
 		"TotalMins": "elem.Duration.InMinutes",
 		"Type":      `"range" | "duration" | "open_range"`,
@@ -802,6 +830,25 @@ func ruleP20Run(p *Prog, r *Report) {
 				var names []string
 				v := a[0]
 				for i := 0; i < 6; i++ {
+					// the result of a helper that hands back (records, error): on the helper's
+					// nil-error edge the records are those of its successful return
+					if ex, isEx := strip(v).(*ssa.Extract); isEx && ex.Index == 0 {
+						if hc, isCall := ex.Tuple.(*ssa.Call); isCall && rawStaticCallee(hc) != nil && isHelper(rawStaticCallee(hc)) {
+							if he := resultOf(hc, errResultIndex(hc.Common().Signature())); he != nil && knownNil(at, he) {
+								var succ []vrow
+								for _, rw := range valueRows(v, 0, map[ssa.Value]bool{}) {
+									if rw.errv != nil && isNilConst(rw.errv) {
+										succ = append(succ, rw)
+									}
+								}
+								if len(succ) == 1 {
+									ht.ctx[originFn(rawStaticCallee(hc))] = hc
+									v = succ[0].val
+									continue
+								}
+							}
+						}
+					}
 					c, idx := callOf(v)
 					if c == nil || idx != 0 || staticCallee(c) == nil {
 						break
@@ -869,12 +916,28 @@ func ruleP20Run(p *Prog, r *Report) {
 	// --now applied with error returned: P12-now-applied covers; check presence here
 	an := p.method("klog/app/cli/util", "NowArgs", "ApplyNow")
 	if an != nil {
-		cs := callsTo(run, an)
-		okNow := len(cs) == 1
+		vcs := virtualCallsTo(run, an)
+		okNow := len(vcs) == 1
+		var cs []ssa.CallInstruction
+		if okNow {
+			cs = []ssa.CallInstruction{vcs[0].call}
+		}
 		if okNow {
 			e := resultOf(cs[0], 0)
 			if e == nil {
 				okNow = false
+			} else if h := cs[0].Parent(); h != run && len(vcs[0].chain) == 1 {
+				// applied inside a helper: the helper returns the error, and so does Run
+				if m2, _ := p.checkForwarding(h, e, lastResultIdx); m2 != "" {
+					okNow = false
+				}
+				hc := vcs[0].chain[0]
+				if he := resultOf(hc, errResultIndex(hc.Common().Signature())); he == nil {
+					okNow = false
+				} else if m3, _ := p.checkForwarding(run, he, lastResultIdx); m3 != "" {
+					okNow = false
+				}
+				ht.ctx[originFn(h)] = hc
 			} else if m2, _ := p.checkForwarding(run, e, lastResultIdx); m2 != "" {
 				okNow = false
 			}
